@@ -157,43 +157,50 @@ def tokenize (t : ClassTables) (width : Int) : List Str → Str → List Str
 
 def endsWith (s suf : Str) : Bool := suf.isSuffixOf s
 
+/-- first part of `wrap`, on the text after `lstrip`, `replace("\n ", "\n")` and `expandtabs`: the first line
+(re-wrapped when it does not fit `width - offset`) and the text it will be cut from -/
+def wrapStage (t : ClassTables) (text : Str) (width offset : Int) : Option (Str × Str) :=
+  let first0 := (splitOn '\n' text).headD [] ++ ['\n']
+  let first1 := if endsWith first0 [':', '\n'] then first0 ++ ['\n'] else first0
+  if (first1.length : Int) > width - offset then
+    match textwrapWrap t first1 (width - offset) [] [] with
+    | none => none
+    | some initial =>
+      let text' :=
+        if text.contains '\n' then
+          let remaining := ((splitOn '\n' text).drop 1).flatten
+          if !isListItem t (strip t remaining) then replaceFirst '\n' [' '] text else text
+        else text
+      match initial with
+      | [] => none                                  -- IndexError: initial[0]
+      | i0 :: _ => some (i0 ++ ['\n'], text')
+  else some (first1, text)
+
+/-- second part of `wrap`: the colon rule, the cut after the first line, tokenisation and filling -/
+def wrapTail (t : ClassTables) (first text : Str) (width : Int) (indent : Nat) : Option Str :=
+  let text := pySub t Pinned.wrapColon.re Pinned.wrapColonRepl text
+  let text := text.drop first.length
+  if text = [] then some (strip t first) else
+  let newLine : Str := if text.head? = some '\n' then ['\n'] else []
+  let text := newLine ++ strip t text
+  let tokens := tokenize t width (splitOn '\n' text) []
+  let fills := tokens.mapM fun token =>
+    textwrapFill t token width (List.replicate indent ' ')
+      (List.replicate indent ' ' ++ List.replicate (subsequentLevel t (strip t token)) ' ')
+  match fills with
+  | none => none
+  | some fs => some (rstripChar '\n' (first ++ joinWith ['\n'] fs))
+
 /-- `gapic.utils.lines.wrap(text, width, offset=offset, indent=indent)`; `none` = Python raises -/
 def wrap (t : ClassTables) (text : Str) (width : Int) (offset : Option Int) (indent : Nat) : Option Str :=
+  let text := lstrip t text                      -- `text.lstrip()` (C20 fix be75097: leading whitespace ignored)
   if text = [] then some [] else
   let offset : Int := offset.getD indent
   let text := replace2 '\n' ' ' ['\n'] text
-  let text := expandTabs text 0                  -- `text.expandtabs()` (C20 fix: commit)
-  let first0 := (splitOn '\n' text).headD [] ++ ['\n']
-  let first1 := if endsWith first0 [':', '\n'] then first0 ++ ['\n'] else first0
-  let stage : Option (Str × Str) :=
-    if (first1.length : Int) > width - offset then
-      match textwrapWrap t first1 (width - offset) [] [] with
-      | none => none
-      | some initial =>
-        let text' :=
-          if text.contains '\n' then
-            let remaining := ((splitOn '\n' text).drop 1).flatten
-            if !isListItem t (strip t remaining) then replaceFirst '\n' [' '] text else text
-          else text
-        match initial with
-        | [] => none                                  -- IndexError: initial[0]
-        | i0 :: _ => some (i0 ++ ['\n'], text')
-    else some (first1, text)
-  match stage with
+  let text := expandTabs text 0                  -- `text.expandtabs()` (C20 fix e33d7a4)
+  match wrapStage t text width offset with
   | none => none
-  | some (first, text) =>
-    let text := pySub t Pinned.wrapColon.re Pinned.wrapColonRepl text
-    let text := text.drop first.length
-    if text = [] then some (strip t first) else
-    let newLine : Str := if text.head? = some '\n' then ['\n'] else []
-    let text := newLine ++ strip t text
-    let tokens := tokenize t width (splitOn '\n' text) []
-    let fills := tokens.mapM fun token =>
-      textwrapFill t token width (List.replicate indent ' ')
-        (List.replicate indent ' ' ++ List.replicate (subsequentLevel t (strip t token)) ' ')
-    match fills with
-    | none => none
-    | some fs => some (rstripChar '\n' (first ++ joinWith ['\n'] fs))
+  | some (first, text) => wrapTail t first text width indent
 
 /-! ### rst.py, plain-text fast path -/
 
